@@ -86,4 +86,163 @@ theorem nextCellK_maximal (q : Qty) (hq : q.dim = 1 ∨ q.dim = 2) (w d s e : Na
       have := le_tz_of_dvd w _ s h1 hm
       omega
 
+/-! ### From local to global maximality: a walk over greedy tiles
+
+  Tiles are abstracted as `(j, t)`: the block `[t, t + 2^(g·j))`, aligned on its size, `j ≤ J` levels
+  above the deepest one.  `GTiles` records that consecutive tiles cover `[s, e)` and that each one is
+  locally maximal (its parent block is not aligned on `t` or does not fit before `e`). -/
+
+def GTiles (g J : Nat) : Nat → Nat → List (Nat × Nat) → Prop
+  | s, e, [] => s = e
+  | s, e, b :: rest =>
+    b.2 = s ∧ 2 ^ (g * b.1) ∣ s ∧ s + 2 ^ (g * b.1) ≤ e ∧ b.1 ≤ J ∧
+    (b.1 < J → ¬ (2 ^ (g * (b.1 + 1)) ∣ s ∧ s + 2 ^ (g * (b.1 + 1)) ≤ e)) ∧
+    GTiles g J (s + 2 ^ (g * b.1)) e rest
+
+theorem gtiles_start_ge {g J : Nat} : ∀ {bs : List (Nat × Nat)} {s e : Nat}, GTiles g J s e bs →
+    ∀ b ∈ bs, s ≤ b.2 := by
+  intro bs
+  induction bs with
+  | nil => intro _ _ _ b hb; cases hb
+  | cons b0 rest ih =>
+    intro s e h b hb
+    obtain ⟨h1, _, _, _, _, h6⟩ := h
+    cases hb with
+    | head => omega
+    | tail _ hm =>
+      have := ih h6 b hm
+      have := Nat.two_pow_pos (g * b0.1)
+      omega
+
+theorem gtiles_end_le {g J : Nat} : ∀ {bs : List (Nat × Nat)} {s e : Nat}, GTiles g J s e bs →
+    ∀ b ∈ bs, b.2 + 2 ^ (g * b.1) ≤ e := by
+  intro bs
+  induction bs with
+  | nil => intro _ _ _ b hb; cases hb
+  | cons b0 rest ih =>
+    intro s e h b hb
+    obtain ⟨h1, _, h3, _, _, h6⟩ := h
+    cases hb with
+    | head => omega
+    | tail _ hm => exact ih h6 b hm
+
+/-- A multiple of `m` strictly between two consecutive multiples of `m` does not exist. -/
+theorem no_multiple_between (m a p : Nat) (hm : 0 < m) (ha : m ∣ a) (hp : m ∣ p) (h1 : a < p) (h2 : p < a + m) : False := by
+  obtain ⟨x, rfl⟩ := ha
+  obtain ⟨y, rfl⟩ := hp
+  have h3 : x < y := Nat.lt_of_mul_lt_mul_left h1
+  have h4 : m * y < m * (x + 1) := by rw [Nat.mul_add, Nat.mul_one]; exact h2
+  have h5 : y < x + 1 := Nat.lt_of_mul_lt_mul_left h4
+  omega
+
+theorem pow_dvd_pow_mul (g a b : Nat) (h : a ≤ b) : 2 ^ (g * a) ∣ 2 ^ (g * b) :=
+  Nat.pow_dvd_pow 2 (Nat.mul_le_mul_left g h)
+
+/-- **Global maximality of greedy tiles**: no tile `(j, t)` (not at the top level) has its parent
+    block `[p, p + 2^(g(j+1)))` inside `[s, e)`. -/
+theorem gtiles_maximal (g J : Nat) (hg : 0 < g) : ∀ (bs : List (Nat × Nat)) (s e : Nat), GTiles g J s e bs →
+    ∀ b ∈ bs, b.1 < J → ∀ p, 2 ^ (g * (b.1 + 1)) ∣ p → p ≤ b.2 → b.2 < p + 2 ^ (g * (b.1 + 1)) →
+      s ≤ p → p + 2 ^ (g * (b.1 + 1)) ≤ e → False := by
+  intro bs
+  induction bs with
+  | nil => intro _ _ _ b hb; cases hb
+  | cons b0 rest ih =>
+    intro s e h b hb hj p hdp hpt htp hsp hpe
+    obtain ⟨h1, h2, h3, h4, h5, h6⟩ := h
+    cases hb with
+    | head =>
+      -- the parent starts at `s` itself: excluded by local maximality
+      have : p = s := by omega
+      subst this
+      exact h5 hj ⟨hdp, hpe⟩
+    | tail _ hm =>
+      have hstart := gtiles_start_ge h6 b hm
+      by_cases hge : s + 2 ^ (g * b0.1) ≤ p
+      · exact ih _ e h6 b hm hj p hdp hpt htp hge hpe
+      · -- the parent block starts inside the first tile and reaches beyond its end
+        have hpos0 := Nat.two_pow_pos (g * b0.1)
+        have hposP := Nat.two_pow_pos (g * (b.1 + 1))
+        by_cases hlev : b.1 + 1 ≤ b0.1
+        · -- parent not larger than the first tile: it cannot straddle the end of the first tile
+          have hd1 : 2 ^ (g * (b.1 + 1)) ∣ s := Nat.dvd_trans (pow_dvd_pow_mul g _ _ hlev) h2
+          have hd2 : 2 ^ (g * (b.1 + 1)) ∣ s + 2 ^ (g * b0.1) := Nat.dvd_add hd1 (pow_dvd_pow_mul g _ _ hlev)
+          -- `s + size0` is a multiple of the parent size strictly between `p` and `p + parent size`
+          exact no_multiple_between _ p (s + 2 ^ (g * b0.1)) hposP hdp hd2 (by omega) (by omega)
+        · -- parent larger than the first tile
+          have hlt : b0.1 < b.1 + 1 := by omega
+          have hd0 : 2 ^ (g * (b0.1 + 1)) ∣ 2 ^ (g * (b.1 + 1)) := pow_dvd_pow_mul g _ _ (by omega)
+          by_cases hps : p = s
+          · subst hps
+            -- the parent of the first tile is aligned on `s` and fits: excluded by local maximality
+            have hfit : p + 2 ^ (g * (b0.1 + 1)) ≤ e := by
+              have := Nat.le_of_dvd hposP hd0
+              omega
+            exact h5 (by omega) ⟨Nat.dvd_trans hd0 hdp, hfit⟩
+          · -- `p` is a multiple of the first tile's size strictly inside the first tile
+            have hdp0 : 2 ^ (g * b0.1) ∣ p := Nat.dvd_trans (pow_dvd_pow_mul g _ _ (by omega)) hdp
+            exact no_multiple_between _ s p hpos0 h2 hdp0 (by omega) (by omega)
+
+
+/-! ### The cell view of a range is a sequence of greedy tiles -/
+
+/-- The tile of a cell: levels above the deepest one, start index. -/
+def tileOf (q : Qty) (w : Nat) (c : Cell) : Nat × Nat := (q.maxDepth w - c.1, c.2 <<< q.shiftFromMax w c.1)
+
+theorem cellsOfRange_gtiles (q : Qty) (hq : q.dim = 1 ∨ q.dim = 2) (w d : Nat) (hd : d ≤ q.maxDepth w)
+    (hw : q.dim * q.maxDepth w + q.dim ≤ w) :
+    ∀ (fuel s e : Nat), e - s ≤ fuel → s ≤ e → 2 ^ q.shiftFromMax w d ∣ s → 2 ^ q.shiftFromMax w d ∣ e →
+      GTiles q.dim (q.maxDepth w) s e ((cellsOfRange q w d fuel s e).map (tileOf q w)) := by
+  intro fuel
+  induction fuel with
+  | zero =>
+    intro s e hf hse _ _
+    simp only [cellsOfRange, List.map_nil, GTiles]; omega
+  | succ f ih =>
+    intro s e hf hse hs he
+    simp only [cellsOfRange]
+    by_cases h : e ≤ s
+    · simp only [h, ↓reduceIte, List.map_nil, GTiles]; omega
+    · simp only [h, ↓reduceIte, List.map_cons]
+      have hlt : s < e := by omega
+      obtain ⟨a1, a2, a3, a4, a5⟩ := nextCellK_spec q hq w d s e hd hs he hlt
+      have hmax := nextCellK_maximal q hq w d s e hd hw hs he hlt
+      generalize hc : nextCellK q w d s e = cs at a1 a2 a3 a4 a5 hmax
+      obtain ⟨c, s'⟩ := cs
+      simp only [] at a1 a2 a3 a4 a5 hmax ⊢
+      -- the cell is exactly `[s, s')`
+      unfold rangeOfCell at a5
+      simp only [Prod.mk.injEq] at a5
+      obtain ⟨e1, e2⟩ := a5
+      have hsh : q.shiftFromMax w c.1 = q.dim * (q.maxDepth w - c.1) := rfl
+      have hsz : s' = s + 2 ^ (q.dim * (q.maxDepth w - c.1)) := by
+        rw [← e2, ← e1, Nat.shiftLeft_eq, Nat.shiftLeft_eq, Nat.add_mul, Nat.one_mul, hsh]
+      have hdv : 2 ^ (q.dim * (q.maxDepth w - c.1)) ∣ s := by
+        rw [← e1, Nat.shiftLeft_eq, hsh]; exact Nat.dvd_mul_left _ _
+      have hjp : q.dim * (q.maxDepth w - c.1 + 1) = q.shiftFromMax w c.1 + q.dim := by
+        rw [hsh, Nat.mul_add, Nat.mul_one]
+      have hfst : (tileOf q w c).1 = q.maxDepth w - c.1 := rfl
+      have hsnd : (tileOf q w c).2 = c.2 <<< q.shiftFromMax w c.1 := rfl
+      refine ⟨by rw [hsnd]; exact e1, by rw [hfst]; exact hdv, by rw [hfst]; omega, by rw [hfst]; omega, ?_, ?_⟩
+      · intro hj
+        rw [hfst] at hj ⊢
+        rw [hjp]
+        exact hmax (by omega)
+      · rw [hfst, ← hsz]
+        exact ih s' e (by omega) a2 a3 he
+
+end Moc
+
+namespace Moc
+
+theorem tiles_depth (q : Qty) (w d : Nat) : ∀ (cs : List Cell) (s e : Nat), Tiles q w d s e cs → ∀ c ∈ cs, c.1 ≤ d := by
+  intro cs
+  induction cs with
+  | nil => intro _ _ _ c hc; cases hc
+  | cons c0 t ih =>
+    intro s e h c hc
+    obtain ⟨s', _, _, _, h4, h5⟩ := h
+    cases hc with
+    | head => exact h4
+    | tail _ hm => exact ih s' e h5 c hm
+
 end Moc
